@@ -36,6 +36,9 @@ def run(ctx, ss):
     for r, f in (("C02.1", p1), ("C02.2", p2), ("C02.3", p3), ("C02.4", p4), ("C02.5", p5),
                  ("C02.6", p6), ("C02.7", p7), ("C02.8", p8)):
         ctx.guard(r, f, ss)
+    # C02.9 packaging: what is parsed is the text given NOW (no file content / parser remembered from an earlier construction)
+    from .shared import reading_path
+    ctx.guard("C02.9", reading_path, ss, "C02.9", [], "the parsed text")
 
 
 def p1(ctx, ss):
